@@ -494,7 +494,7 @@ static void gen_junk_resolv(vh_rng_t *r, int cls, cfg_bb_t *l)
                                          "sort-list", "nameserver:", "family", "=", "-" };
   static const char *const kws[]     = { "nameserver", "search", "domain", "sortlist", "options",
                                          "lookup", "hostresorder" };
-  static const char *const badns[]   = { "notanip", "1.2.3", "1.2.3.4.5", "256.1.1.1", "1.2.3.4:",
+  static const char *const badns[]   = { "notanip", "1.2.3.", "1.2.3.4.5", "256.1.1.1", "1.2.3.4:",
                                          "1.2.3.4:Z", "[1.2.3.4", "1::2::3", "[::1]:9999999",
                                          "fe80::1", "fe80::1%nosuchif", "dns://", "dns://host.example",
                                          "dns+tls://1.2.3.4", "http://1.2.3.4", "1.2.3.4%", ":53",
@@ -817,8 +817,10 @@ static const char *const junk_hosts_name[JH_N] = { "comment-hash", "blank", "ws-
 
 static void gen_junk_hosts(vh_rng_t *r, int cls, const cfg_names_t *nm, cfg_bb_t *l)
 {
-  static const char *const badip[]   = { "notanip", "1.2.3", "300.1.1.1", "1.2.3.4.5", "1::2::3",
-                                         "1.2.3.4/8", "[::1]", "localhost", "-", "1.2.3.4:53" };
+  /* ares_inet_pton() is lenient (classful "1.2.3", "1.2.3.4/8", "0x7f000001" are accepted), so
+   * only strings it rejects count as a bad address */
+  static const char *const badip[]   = { "notanip", "1.2.3.", "300.1.1.1", "1.2.3.4.5", "1::2::3",
+                                         "1.2.3.4/x", "[::1]", "localhost", "-", "1.2.3.4:53" };
   static const char *const badname[] = { "bad!name", "b@d", "sp\"ace", "(paren)", "na:me", "a,b",
                                          "#comment-only", "[x]", "a=b" };
   const char              *known     = nm->n ? nm->names[vh_below(r, (uint32_t)nm->n)] : "foobar";
